@@ -4,7 +4,7 @@ CONSTANT MaxCalls = 4
 CONSTANT Ds = {0, 1}
 CONSTANT NegMax = 1
 CONSTANT MaxNow = 2
-CONSTANT Depth = 10
+CONSTANT Depth = 9
 CONSTRAINT Bound
 VIEW View
 PROPERTY Refines
